@@ -76,14 +76,14 @@ structure Inv (L : Layout) (s : RState) : Prop where
 inductive ROp where
   | seek (off : Int) (whence : Nat)
   | read (n : Nat) (adv : Adv)
-deriving Repr
+deriving Repr, DecidableEq
 
 /-- Output of one operation, impl side. `none` = the call never returned. -/
 inductive ROut where
   | seek (pos : Int) (err : Option Err)
   | read (data : List UInt8) (err : Option Err)
   | hang
-deriving Repr
+deriving Repr, DecidableEq
 
 /-- Run a list of operations on the Reader model. -/
 def runOps (v : Variant) (L : Layout) : RState → List ROp → List ROut
